@@ -461,6 +461,14 @@ fn bodies(target: &str) -> Vec<Vec<u8>> {
             ] {
                 s(x);
             }
+            // characters a response layer might be tempted to transform (markup, percent signs,
+            // line breaks, NUL, quotes, backslashes), echoed by the message as an offending value,
+            // as an unknown member name and inside a quoted container
+            for t in ["<b>&amp;</b>", "a&b", "x<y", "y>x", "%41%3C", "line\\nbreak\\r\\n", "nul\\u0000", "q\\\"uote'", "back\\\\slash", " pad ", "\\u2028sep", "${x}", "{{x}}"] {
+                v.push(format!("{{\"name\":\"a\",\"n\":\"{t}\"}}").into_bytes());
+                v.push(format!("{{\"name\":\"a\",\"n\":1,\"{t}\":0}}").into_bytes());
+                v.push(format!("{{\"name\":[\"{t}\",{{\"{t}\":null}}],\"n\":1}}").into_bytes());
+            }
             v.push(b"{\"name\":\"\xff\",\"n\":1}".to_vec());
             v.push(b"\xff\xfe".to_vec());
         }
@@ -531,7 +539,7 @@ const CONTENT_TYPES: [Option<&str>; 6] = [
 
 fn query_strings() -> Vec<String> {
     let keys = ["q", "sortBy", "c", "zz"];
-    let vals = ["a", "name", "", "%C3%A9", "%", "a+b", "Name", "xy", "a=b", "YWJj=="];
+    let vals = ["a", "name", "", "%C3%A9", "%", "a+b", "Name", "xy", "a=b", "YWJj==", "%3Cb%3E%26amp;", "x<y>&", "%0A%00"];
     let mut pairs: Vec<String> = vec![];
     for k in keys {
         pairs.push(k.to_string()); // key without '='
@@ -539,7 +547,7 @@ fn query_strings() -> Vec<String> {
             pairs.push(format!("{k}={v}"));
         }
     }
-    let mut out = vec![String::new(), "&".into(), "=".into(), "q".into(), "%zz=1".into()];
+    let mut out = vec![String::new(), "&".into(), "=".into(), "q".into(), "%zz=1".into(), "%3Cb%3E=1".into(), "q=a&<i>=1".into(), "a%26b=1".into()];
     for a in &pairs {
         out.push(a.clone());
         for b in &pairs {
